@@ -2,7 +2,7 @@
    Re-uses the observation type and the C06 operator specification of Check/C06.v
    (which depends on Model/ and Base/ only). *)
 From Coq Require Import Floats.
-From Murex Require Export Base.Outcome Base.Bytes Base.CheckLib Model.Expr Model.ExprSpec Check.C06.
+From Murex Require Export Base.Outcome Base.Bytes Base.CheckLib Model.Expr Model.ExprSpec Model.ExprBuiltins Check.C06.
 
 (* how one value fared in the five places that test truthiness *)
 Record truth_obs := {
@@ -15,17 +15,23 @@ Record truth_obs := {
 }.
 
 Inductive case :=
-| CaseExpr (ts : list ptok) (o : obs)
-| CaseTruth (v : value) (t : truth_obs).
+| CaseExpr (ts : list ptok) (orc : oracles) (o : obs)
+| CaseTruth (v : value) (t : truth_obs)
+| CaseBuiltin (b : builtin) (neg : bool) (cs : list cond) (o : bobs).
+
+Definition bobs_eqb (a b : bobs) : bool :=
+  Bool.eqb (bo_ok a) (bo_ok b) && Bool.eqb (bo_flag a) (bo_flag b) &&
+  Z.eqb (bo_exit a) (bo_exit b) && N.eqb (bo_count a) (bo_count b).
 
 Definition agree (c : case) : bool :=
   match c with
-  | CaseExpr ts o => obs_eqb (obs_of (eval_expr ts)) o
+  | CaseExpr ts orc o => obs_eqb (obs_of (eval_expr orc ts)) o
   | CaseTruth v t =>
     t_ok t &&
     Bool.eqb (t_and t) (truthy_logic v) && Bool.eqb (t_or t) (truthy_logic v) &&
     Bool.eqb (t_elvis t) (truthy_elvis v) &&
     Bool.eqb (t_if t) (truthy_logic v) && Bool.eqb (t_not t) (truthy_logic v)
+  | CaseBuiltin b neg cs o => bobs_eqb (run_builtin b neg cs) o
   end.
 
 (* ---- the property, written from its text ---- *)
@@ -53,20 +59,65 @@ Definition spec_truthy (v : value) : bool :=
   | VNum f => negb (is_pos_zero f)
   end.
 
-Definition spec_apply07 (o : sym) (a b : value) : option value :=
+Definition spec_apply07 (orc : oracles) (o : sym) (a b : value) : option value :=
   match o with
   | And => Some (VBool (spec_truthy a && spec_truthy b))
   | Or => Some (VBool (spec_truthy a || spec_truthy b))
   | Elvis => Some (if spec_truthy a then a else b)
   | NullCo => Some (match a with VNull => b | _ => a end)
-  | _ => spec_apply o a b
+  | _ => spec_apply orc o a b
   end.
 
-Definition reference07 (ts : list ptok) : option value :=
+Definition reference07 (orc : oracles) (ts : list ptok) : option value :=
   match parse_expr ts with
-  | Some t => eval_top spec_apply07 t
+  | Some t => eval_top (spec_apply07 orc) t
   | None => None
   end.
+
+(* ---- statement-level builtins: "truthiness is the same everywhere ... and so is
+   any non-zero exit [false]". A condition holds when its block is truthy (its
+   exit number is not positive and its output is not a false word), or the
+   reverse for the !-forms. Negative exit numbers (murex's internal "and/or
+   succeeded" marker) are outside the property. ---- *)
+Definition spec_true (c : cond) : bool :=
+  if (0 <? cd_exit c)%Z then false else spec_truthy_str (cd_out c).
+
+Definition holds (neg : bool) (c : cond) : bool := xorb (spec_true c) neg.
+
+Fixpoint prefix_len (p : cond -> bool) (cs : list cond) : N :=
+  match cs with
+  | [] => 0
+  | c :: r => if p c then N.succ (prefix_len p r) else 0
+  end%N.
+
+Definition spec_builtin (b : builtin) (neg : bool) (cs : list cond) : bobs :=
+  match b with
+  | BIf =>      (* the then-block runs iff the condition holds *)
+    match cs with
+    | [c] => {| bo_ok := true; bo_flag := holds neg c; bo_exit := 0; bo_count := 1 |}
+    | _ => {| bo_ok := false; bo_flag := false; bo_exit := 0; bo_count := 0 |}
+    end
+  | BAnd =>     (* succeeds iff every condition holds; stops at the first that does not *)
+    let ok := forallb (holds neg) cs in
+    {| bo_ok := true; bo_flag := ok; bo_exit := if ok then (-1) else 1;
+       bo_count := if ok then N.of_nat (length cs) else N.succ (prefix_len (holds neg) cs) |}
+  | BOr =>      (* succeeds iff some condition holds; stops at the first that does *)
+    let ok := existsb (holds neg) cs in
+    {| bo_ok := true; bo_flag := ok; bo_exit := if ok then (-1) else 1;
+       bo_count := if ok then N.succ (prefix_len (fun c => negb (holds neg c)) cs)
+                   else N.of_nat (length cs) |}
+  | BWhile =>   (* the body runs once for every leading evaluation at which the condition holds *)
+    if forallb (holds neg) cs
+    then {| bo_ok := false; bo_flag := false; bo_exit := 0; bo_count := 0 |}
+    else {| bo_ok := true; bo_flag := true; bo_exit := 0; bo_count := prefix_len (holds neg) cs |}
+  | BNot =>     (* prints the negation *)
+    match cs with
+    | [c] => {| bo_ok := true; bo_flag := negb (spec_true c); bo_exit := 0; bo_count := 1 |}
+    | _ => {| bo_ok := false; bo_flag := false; bo_exit := 0; bo_count := 0 |}
+    end
+  end.
+
+Definition in_domain (cs : list cond) : bool := forallb (fun c => (0 <=? cd_exit c)%Z) cs.
 
 Definition truth_all (t : truth_obs) (b : bool) : bool :=
   t_ok t && Bool.eqb (t_and t) b && Bool.eqb (t_or t) b && Bool.eqb (t_elvis t) b &&
@@ -74,12 +125,14 @@ Definition truth_all (t : truth_obs) (b : bool) : bool :=
 
 Definition spec_ok (c : case) : bool :=
   match c with
-  | CaseExpr ts o =>
-    match reference07 ts with
+  | CaseExpr ts orc o =>
+    match reference07 orc ts with
     | Some v => obs_eqb {| o_kind := 0; o_val := v |} o
     | None => true
     end
   | CaseTruth v t => truth_all t (spec_truthy v)      (* truthiness is the same everywhere *)
+  | CaseBuiltin b neg cs o =>
+    if in_domain cs then bobs_eqb (spec_builtin b neg cs) o else true
   end.
 
 (* ---- known finding 1: `?:` treats the number -0 as false (ConvertGoType(-0, bool):
@@ -91,13 +144,13 @@ Definition is_neg_zero (v : value) : bool :=
   | _ => false
   end.
 
-Fixpoint negzero_elvis (t : tree) : bool :=
+Fixpoint negzero_elvis (orc : oracles) (t : tree) : bool :=
   match t with
   | TLeaf _ => false
-  | TParen t' => negzero_elvis t'
+  | TParen t' => negzero_elvis orc t'
   | TNode o l r =>
-    negzero_elvis l || negzero_elvis r ||
-    match o, eval_tree spec_apply07 l with
+    negzero_elvis orc l || negzero_elvis orc r ||
+    match o, eval_tree (spec_apply07 orc) l with
     | Elvis, Some v => is_neg_zero v
     | _, _ => false
     end
@@ -106,9 +159,10 @@ Fixpoint negzero_elvis (t : tree) : bool :=
 Definition classify (c : case) : N :=
   match c with
   | CaseTruth v _ => if is_neg_zero v then 1 else 0
-  | CaseExpr ts _ =>
+  | CaseBuiltin _ _ _ _ => 0
+  | CaseExpr ts orc _ =>
     match parse_expr ts with
-    | Some t => if negzero_elvis t then 1 else 0
+    | Some t => if negzero_elvis orc t then 1 else 0
     | None => 0
     end
   end%N.
